@@ -31,6 +31,9 @@ def run(res, tier, rng):
         if rng.random() < 0.3:
             urls.append(h)
     hosts = list(dict.fromkeys(hosts))
+    from .C02 import colonless_protocol
+    has_c10 = any(k.get("property") == "C07" and k.get("id") == "F-C10" and k.get("status") == "known" for k in common.load_known())
+    hits = {}
     nontriv = set()
     for u in urls:
         res.evaluations += 1
@@ -80,6 +83,9 @@ def run(res, tier, rng):
                 else:
                     stc = st
                 if stc != st2 and r not in ("", u) and "//" + r != "//":
+                    if colonless_protocol(u) and has_c10:
+                        hits.setdefault("F-C10", "a protocol without colon: %s(%r) are not the stems of the url %r the variant returns" % (stems_fn.__name__, u, r))
+                        continue
                     res.violation("property", "%s(u) are not the stems of %s(u)" % (stems_fn.__name__, fn.__name__), input=dict(url=u, suffix_aware=sa), impl=[stc, st2, r])
     for h in hosts:
         res.evaluations += 1
@@ -129,6 +135,8 @@ def run(res, tier, rng):
                         bad = [i for i in range(4) if mo[i] != io2[i]]
                         res.violation("correspondence", "variant stems models differ from implementation at positions %s (0 canonicalized, 1 normalized, 2 fingerprinted, 3 fingerprinted+strip_suffix)" % bad,
                                       input=dict(string=u, suffix_aware=sa), impl=[io[i] for i in bad], model=[mo[i] for i in bad])
+    for fid, text in sorted(hits.items()):
+        res.known_hits.append((fid, text))
     res.nontrivial = nontriv
     res.rule = ("urls of the C01 grammar (with surrounding whitespace, wrapped in redirects) and bare hostnames (language labels, irrelevant subdomains, punycode, multi-label suffixes): "
                 "get_normalized_hostname / get_fingerprinted_hostname vs the host of normalize_url / fingerprint_url (unsplit=False) x normalize_amp x infer_redirection x strip_suffix; "
